@@ -57,7 +57,7 @@ NATIVE = {
     'n_hdr_getters_many_tags': dict(crate='multiboot2-header', file='header.rs', props=['C11'],
         bound='10 getter kinds x {0,1,2,5,9..13,20,40,100,600,1100} filler tags (other kinds, cycling) x wanted kind present twice / absent (280 headers, up to ~16 KiB); every getter compared with the first tag of its type in the walk',
         functions=['Multiboot2Header::get_tag and the ten typed getters beyond the Kani region sizes (Iterator::find with a closure is outside this Verus)']),
-    'n_mbi_getters_many_tags': dict(crate='multiboot2', file='boot_information.rs', props=['C04', 'C03'],
+    'n_mbi_getters_many_tags': dict(crate='multiboot2', file='boot_information.rs', props=['C04', 'C03', 'C17'],
         bound='20 getter kinds x {0,1,2,7,8,9,19..23,40,100,1100} filler tags x wanted kind present twice / absent, EFI map vs boot-services tag in both orders with 0/1/30 fillers, module iterator with 0/3/25 modules (572 regions); every getter compared with the first tag of its type in the walk',
         functions=['BootInformation::get_tag and all typed getters, efi_memory_map_tag rule, module_tags beyond the Kani region sizes (Iterator::find / filter with closures are outside this Verus)']),
     'n_ctor_large_contents': dict(crate='multiboot2', file='tag.rs', props=['C07', 'C16', 'C17'],
@@ -287,7 +287,8 @@ FORCE_QUICK = {'k_elf_iter_provided_methods', 'k_efi_mmap_withheld', 'k_get_tag_
 _extra_props = {'k_module_iter': ['C03'],
                 # the accessor harnesses pin field offsets / widths on the compiled layout: the constructor image is the same struct
                 'k_vbe_decode_top': ['C07'], 'k_vbe_decode_control': ['C07'], 'k_vbe_decode_mode': ['C07'],
-                'k_console_decode': ['C09'], 'k_relocatable_decode': ['C09']}
+                'k_console_decode': ['C09'], 'k_relocatable_decode': ['C09'],
+                'k_mb2hdr_magic_value': ['C13']}
 # constructors of the header crate's DST kind allocate through new_boxed with a 4-aligned header type:
 # Kani's dealloc check on Box drop is the C16 "freed with the layout it was allocated with" obligation
 for _h in list(HARNESSES):
@@ -299,6 +300,11 @@ for _h, _spec in list(HARNESSES.items()):
         _extra_props.setdefault(_h, []).append('C04')
     if 'C20' in _spec.get('props', []) and _spec['crate'] == 'multiboot2-header':
         _extra_props.setdefault(_h, []).append('C11')
+# the builder round trip of C12 is observed through the typed getters, which select by each kind's Tag::ID:
+# the per-kind decode harnesses of the header crate (they pin ID and field offsets) also serve C12
+for _h, _spec in list(HARNESSES.items()):
+    if _spec['crate'] == 'multiboot2-header' and _h.endswith('_decode') and 'C11' in _spec.get('props', []):
+        _extra_props.setdefault(_h, []).append('C12')
 for _h, _extra in _extra_props.items():
     if _h in HARNESSES:
         HARNESSES[_h].setdefault('props', [])
